@@ -96,7 +96,7 @@ func genC08(rt *rapid.T) C08Case {
 		st.Short = rapid.Bool().Draw(rt, "short")
 		return st
 	})
-	c.Steps = rapid.SliceOfN(stepGen, 1, 10).Draw(rt, "steps")
+	c.Steps = rapid.SliceOfN(stepGen, 1, tierN(10, 25)).Draw(rt, "steps")
 	return c
 }
 
